@@ -34,7 +34,7 @@ CHECKS = {
    technique="deterministic simulation of the user function / user Jacobian as a scripted, recording, fault-injecting peer of the Newton iteration protocol; seeded search over scripts, fault keyings (evaluation index, region) and parameters; reference-model Newton step; restart-composition and replay oracles; shrinking",
    text="All six real solve/solve_jacobian methods run against a simulated user function that answers from a script (polynomials in product form, exp/sin equations, strictly diagonally dominant systems of dimension 1..6; root-free, non-differentiable and constant scripts), injects NaN/+-Inf/1e300 at a chosen evaluation index, user-Jacobian call or region, counts and hashes every call and aborts runaway solvers. Oracles: returns (no panic; runaway evaluation counts stopped by the callback, silent loops by a wall-clock watchdog), evaluations <= 2*E*max_iter+2 (the property names no constant) and at most one evaluation with max_iter=0, parameters() untouched; 2..12 further calls on the SAME object bit-identical in result and call history; the same object reconfigured through its setters (iterations, guess, delta, tolerance) answers like a fresh one; another object solving another problem on the same thread first changes nothing; failure payload is the last iterate (restart composition, one-step reference model), no Ok on scripts whose stopping criterion cannot be met, in-basin success within O(tol) of the root, Ok-implies-near-a-root anywhere. Seeded sampling, not proof; the in-basin/anywhere halves are numerical sampling that simulation merely hosts.",
    design="§4.3",
-   note="Trusted: per-iteration evaluation cost E of the documented scheme (3 scalar, n+2 finite-difference systems, 1+1 user Jacobian), doubled, as the meaning of "bounded work"; basin radii derived in DESIGN.md §4.3; harness-side reference arithmetic (complex helpers, Gaussian elimination); under injected faults no Ok/Err expectation."),
+   note="Trusted: per-iteration evaluation cost E of the documented scheme (3 scalar, n+2 finite-difference systems, 1+1 user Jacobian), doubled, as the meaning of 'bounded work'; basin radii derived in DESIGN.md §4.3; harness-side reference arithmetic (complex helpers, Gaussian elimination); under injected faults no Ok/Err expectation."),
  "C18": dict(
    engine="simcheck (scripted-callback simulator)",
    technique="deterministic simulation of the user map as a scripted, recording, possibly faulty peer: stencil classification, table/affine/smooth environments, injected NaN/Inf/panic; seeded search with shrinking",
